@@ -214,6 +214,19 @@ func (m *Dev) abs(ev Event, got []Msg, signals int) *Violation {
 			st.dir, st.pair = 0, nil
 		}
 	}
+	if (a == nil || a.Type != "action") && st.actDir != 0 {
+		// An action is still held by this axis from a mapping in which it triggered actions; in the current mapping
+		// it has another role. Once the stick is back at rest nothing is held any more, and the next deflection in
+		// a mapping where it triggers actions is a new press.
+		rest := int32(0)
+		if pa := m.physAxis(ev.Code); pa != nil && pa.Min == 0 {
+			rest = (pa.Max + 1) / 2
+		}
+		if ev.Value == rest {
+			m.probe("action_axis_released_in_other_mapping")
+			st.actDir = 0
+		}
+	}
 	if a == nil {
 		if len(got) != 0 {
 			return viol("unmapped_axis_emits", fmt.Sprintf("%s is not mapped in %q but emitted %s", ev, m.D.Mappings[m.Map].Name, fmtMsgs(got)), "C06")
@@ -265,6 +278,10 @@ func (m *Dev) abs(ev Event, got []Msg, signals int) *Violation {
 				// the learning gate is stated for controllers; for key emulation the note lifecycle rules
 				// of C08/C01 keep applying
 				return m.keyAxis(ev, a, st, f, canNeg, got, true)
+			}
+			if a.Type == "action" {
+				// ... and an action triggered by an axis is not a controller either: its release must be seen
+				return m.actionAxis(ev, a, st, f, canNeg, got)
 			}
 			if len(got) != 0 {
 				return viol("learning_gate", fmt.Sprintf("cc_learning held, %s is within half travel but emitted %s", ev, fmtMsgs(got)), "C07")
@@ -496,7 +513,7 @@ func (m *Dev) actionAxis(ev Event, a *AxisDesc, st *axisState, f *big.Rat, canNe
 	if !canNeg {
 		v = new(big.Rat).Sub(new(big.Rat).Mul(rat(2), f), rOne)
 	}
-	newDir := st.dir
+	newDir := st.actDir
 	switch {
 	case v.Cmp(rHalf) >= 0:
 		newDir = 1
@@ -505,14 +522,14 @@ func (m *Dev) actionAxis(ev Event, a *AxisDesc, st *axisState, f *big.Rat, canNe
 	case abs(v).Cmp(r49) < 0:
 		newDir = 0
 	}
-	if newDir == st.dir {
+	if newDir == st.actDir {
 		if len(got) != 0 {
-			return viol("action_axis_emits", fmt.Sprintf("%s stays in direction %d but emitted %s", ev, st.dir, fmtMsgs(got)), "C04")
+			return viol("action_axis_emits", fmt.Sprintf("%s stays in direction %d but emitted %s", ev, st.actDir, fmtMsgs(got)), "C04")
 		}
 		return nil
 	}
-	old := st.dir
-	st.dir = newDir
+	old := st.actDir
+	st.actDir = newDir
 	act := func(dir int) string {
 		if dir > 0 && a.Action != nil {
 			return *a.Action
